@@ -5,6 +5,7 @@ import (
 	"database/sql"
 	"errors"
 	"fmt"
+	"sync"
 	"time"
 
 	"github.com/go-sql-driver/mysql"
@@ -18,9 +19,10 @@ import (
 
 // Delivery is one coordinator/TM delivery of a phase for a branch.
 type Delivery struct {
-	Key   int `json:"key"`   // branch index: xid = "xid-<key/2>", branch id = 100+key (keys 2k, 2k+1 share an xid)
-	Phase int `json:"phase"` // 1 prepare, 2 commit, 3 rollback
-	Fault int `json:"fault"` // -1 none, else index of the failing counted driver operation
+	Key   int  `json:"key"`           // branch index: xid = "xid-<key/2>", branch id = 100+key (keys 2k, 2k+1 share an xid)
+	Phase int  `json:"phase"`         // 1 prepare, 2 commit, 3 rollback
+	Fault int  `json:"fault"`         // -1 none, else index of the failing counted driver operation
+	Drv   bool `json:"drv,omitempty"` // through the seata-fence-mysql proxy driver instead of WithFence(callback)
 }
 
 // Obs is what one delivery did (projected: no SQL text, no messages, no times).
@@ -47,6 +49,7 @@ type Case struct {
 	Obs    []Obs      `json:"obs"`            // one per sequential delivery
 	RObs   []Obs      `json:"robs,omitempty"` // the two racing deliveries (status/biz read after both ended)
 	Oracle string     `json:"oracle"`         // property statement evaluated on the real run; "" = holds
+	Pred   string     `json:"pred,omitempty"` // input predicate of a known finding some delivery of the history satisfies
 	Infra  string     `json:"infra,omitempty"`
 }
 
@@ -101,11 +104,62 @@ func deliver(sess *Session, phase int, key int) (errc int, detail string) {
 	return 0, ""
 }
 
-func guarded(sess *Session, phase, key int) (int, string) {
+var (
+	drvOnce sync.Once
+	drvSeq  int
+)
+
+// deliverDrv performs one delivery through the proxy driver: the participant opens its
+// transaction on a seata-fence-mysql connection (FenceConn.BeginTx runs the fence in a second
+// transaction), executes the business statement on it and commits / rolls back (FenceTx).
+func deliverDrv(sess *Session, phase int, key int) (errc int, detail string) {
+	drvOnce.Do(func() { sql.Register("verif-fence-mysql", &fence.FenceDriver{TargetDriver: fdriver{}}) })
+	xid, branch := keyName(key)
+	dsnMu.Lock()
+	drvSeq++
+	dsn := fmt.Sprintf("sess-%d", drvSeq)
+	dsnSessions[dsn] = sess
+	dsnMu.Unlock()
+	defer func() {
+		dsnMu.Lock()
+		delete(dsnSessions, dsn)
+		dsnMu.Unlock()
+	}()
+	db, err := sql.Open("verif-fence-mysql", dsn)
+	if err != nil {
+		return 4, err.Error()
+	}
+	defer db.Close()
+	ctx := tm.InitSeataContext(context.Background())
+	tm.SetXID(ctx, xid)
+	tm.SetTxName(ctx, "verif-fence")
+	tm.SetFencePhase(ctx, enum.FencePhase(phase))
+	tm.SetBusinessActionContext(ctx, &tm.BusinessActionContext{Xid: xid, BranchId: branch, ActionName: "verifAction",
+		ActionContext: map[string]interface{}{}})
+	tx, err := db.BeginTx(ctx, &sql.TxOptions{})
+	if err != nil {
+		return classify(err, sess)
+	}
+	sess.Ran++
+	if _, err = tx.Exec("update biz set n = n + 1 where xid = ? and branch_id = ? and kind = ?", xid, branch, phase); err != nil {
+		_ = tx.Rollback()
+		return classify(err, sess)
+	}
+	if err = tx.Commit(); err != nil {
+		return classify(err, sess)
+	}
+	return 0, ""
+}
+
+func guarded(sess *Session, phase, key int, drv bool) (int, string) {
 	var ec int
 	var det string
 	class, d := hutil.Guard(20*time.Second, func() error {
-		ec, det = deliver(sess, phase, key)
+		if drv {
+			ec, det = deliverDrv(sess, phase, key)
+		} else {
+			ec, det = deliver(sess, phase, key)
+		}
 		return nil
 	})
 	switch class {
@@ -117,13 +171,24 @@ func guarded(sess *Session, phase, key int) (int, string) {
 	return ec, det
 }
 
-func runSeq(st *Store, sid *int, hist []Delivery) []Obs {
+// drvDecided: input predicate fence.drivermode.decided-without-business
+func drvDecided(status int64, phase int) bool {
+	return (phase == 2 && status == 2) || (phase == 3 && (status == 0 || status == 3 || status == 4))
+}
+
+func runSeq(st *Store, sid *int, hist []Delivery, pred *string) []Obs {
 	var out []Obs
 	for _, d := range hist {
 		*sid++
 		sess := &Session{ID: *sid, Store: st, Fault: d.Fault}
-		ec, det := guarded(sess, d.Phase, d.Key)
 		xid, b := keyName(d.Key)
+		if d.Drv && drvDecided(st.Status(xid, b), d.Phase) && *pred == "" {
+			*pred = "fence.drivermode.decided-without-business"
+		}
+		ec, det := guarded(sess, d.Phase, d.Key, d.Drv)
+		if d.Drv && ec == 1 && len(sess.Trace) > 0 && sess.Trace[len(sess.Trace)-1] == OpCommit && *pred == "" {
+			*pred = "fence.drivermode.fault-at-commit"
+		}
 		if sess.Misuse != "" && det == "" {
 			det = sess.Misuse
 		}
@@ -385,7 +450,7 @@ func oracleCase(c *Case) string {
 func runCase(c *Case) {
 	st := NewStore()
 	sid := 0
-	c.Obs = runSeq(st, &sid, c.Hist)
+	c.Obs = runSeq(st, &sid, c.Hist, &c.Pred)
 	if c.Race != nil {
 		robs, infra := runRace(st, &sid, 0, c.Race)
 		c.RObs, c.Infra = robs, infra
